@@ -109,6 +109,7 @@ type capReq struct {
 type Image struct {
 	Sel     ImageSel
 	Idx     int
+	Sub     int // >= 0: number of the enumerated subset, else -1
 	Files   map[string][]byte
 	StmtIdx int
 	InStmt  bool
